@@ -45,6 +45,19 @@ def signature(line):
     tail = line.split("] ", 1)[1] if "] " in line else line
     tail = re.sub(r"impl=state-changed-from_\S+", "impl=state-changed", tail)
     tail = re.sub(r"model=cnt=\S+", "model=<state>", tail)
+    vals = dict(t.split("=", 1) for t in tail.split() if "=" in t)
+    exp, got = vals.get("spec", vals.get("model", "")), vals.get("impl", "")
+    if exp.startswith("D:") and got.startswith("D:") and exp.count("/") == 2 and got.count("/") == 2:
+        # two deliveries: which of the three parts differ, and how
+        how = []
+        for name, a, b in zip(("deadline-part", "notification-part", "foreign"), exp[2:].split("/"), got[2:].split("/")):
+            if a == b:
+                continue
+            ga, gb = re.sub(r"[em]", "", a), re.sub(r"[em]", "", b)
+            how.append(name + (":count" if a.count(",") != b.count(",") or (a == "") != (b == "") else
+                               ":kinds" if ga == gb else ":guards"))
+        return "%s %s delivery differs in %s" % (kind, opn, "+".join(how))
+    tail = re.sub(r"D:\S*", "D:*", tail)
     return kind + " " + opn + " " + re.sub(r"\d+", "#", tail)
 
 
@@ -232,7 +245,16 @@ def run(ctx):
         ctx.violation("correspondence job failed (harness or driver crashed): " + lbl, {"cmd": cmd, "rc": rc, "tail": tail}, no_input=True)
     # One violation per distinct KIND of disagreement (signature), spec mismatches first; nothing is
     # keyed (see classify), nothing is dropped because another kind is more frequent.
-    sigs = sorted(r["by_sig"].items(), key=lambda kv: (0 if kv[0].startswith("spec") else 1, kv[0]))
+    # order: one signature of every (kind, operation) group first, so that no group is pushed out of the report
+    groups = {}
+    for k in sorted(r["by_sig"]):
+        groups.setdefault(tuple(k.split()[:2]), []).append(k)
+    order = []
+    for rank in range(max([len(v) for v in groups.values()] + [0])):
+        for g in sorted(groups, key=lambda g: (0 if g[0] == "spec" else 1, g)):
+            if rank < len(groups[g]):
+                order.append(groups[g][rank])
+    sigs = [(k, r["by_sig"][k]) for k in order]
     ctx.cov["mismatch_signatures"] = {k: v["count"] for k, v in sigs[:50]}
     max_reports = 12
     for n, (sig, e) in enumerate(sigs):
